@@ -78,8 +78,8 @@ def run(cx):
             "also mutated in every applicable single way (%s) and validated plain, multi-error, operational; non-trivial = distinct "
             "(schema, instance, options)" % ", ".join(vg.MUTATIONS))
     rng = cx.sub_rng("schemas")
-    nsch = cx.n(90, 700)
-    per = cx.n(5, 24)
+    nsch = cx.n(90, 500)
+    per = cx.n(5, 20)
     schemas, cases = [], load_corpus(cx)
     for i in range(nsch):
         s = vg.gen_schema_x(rng, i, max_depth=rng.choice([2, 3, 3]))
@@ -125,7 +125,7 @@ def corpus_schema(sj):
 def opts_of(c):
     if c.kind is None:
         return V_OPTS
-    return [c.base, c.base | MULTI, c.base | OPER, c.base | PRESENT]
+    return sorted(set([c.base, c.base | MULTI, c.base | OPER, c.base | PRESENT, c.base | NO_STATE]))
 
 
 def process(cx, schemas, cases, lo):
